@@ -13,14 +13,12 @@ structure StmtFacts (s : Stmt) : Prop where
   w : wStmt s = true
   df : dfStmt s = []
   labs : Src.labelsOf (toSrcStmt s) = []
-  vbad : vbadStmt s = false
 
 structure StmtsFacts (ss : Stmts) : Prop where
   ok : okStmts ss = true
   w : wStmts ss = true
   df : dfStmts ss = []
   labs : Src.labelsOfStmts (toSrcStmts ss) = []
-  vbad : vbadStmts ss = false
 
 structure ElifsFacts (es : Elifs) : Prop where
   ok : okElifs es = true
@@ -28,7 +26,6 @@ structure ElifsFacts (es : Elifs) : Prop where
   dfA : dfElifsA es = []
   dfB : dfElifsB es = []
   labs : Src.labelsOfBranches (toSrcElifs es) = []
-  vbad : vbadElifs es = false
 
 theorem f0_inner_facts (c : String) (cp : ESV.Param) (inner : Stmt) (hc : isCtx c = true) (h : f0Inner inner = true) :
     StmtFacts (.with_ c cp inner) := by
@@ -36,82 +33,111 @@ theorem f0_inner_facts (c : String) (cp : ESV.Param) (inner : Stmt) (hc : isCtx 
   | op n ps =>
     simp only [f0Inner, Bool.and_eq_true] at h
     obtain ⟨a, b⟩ := nameOK_split n h.1
-    exact ⟨by simp [okStmt, a, b, ctx_notJump c hc], by simp [wStmt, innerOK, a, h.2], rfl, by simp [toSrcStmt, Src.labelsOf],
-      by simp [vbadStmt, Stmt.isLabel]⟩
-  | end_ => exact ⟨by simp [okStmt, ctx_notJump c hc], by simp [wStmt, innerOK], rfl, by simp [toSrcStmt, Src.labelsOf],
-      by simp [vbadStmt, Stmt.isLabel]⟩
-  | hold => exact ⟨by simp [okStmt, ctx_notJump c hc], by simp [wStmt, innerOK], rfl, by simp [toSrcStmt, Src.labelsOf],
-      by simp [vbadStmt, Stmt.isLabel]⟩
+    exact ⟨by simp [okStmt, a, b, ctx_notJump c hc], by simp [wStmt, innerOK, a, h.2], rfl, by simp [toSrcStmt, Src.labelsOf]⟩
+  | end_ => exact ⟨by simp [okStmt, ctx_notJump c hc], by simp [wStmt, innerOK], rfl, by simp [toSrcStmt, Src.labelsOf]⟩
+  | hold => exact ⟨by simp [okStmt, ctx_notJump c hc], by simp [wStmt, innerOK], rfl, by simp [toSrcStmt, Src.labelsOf]⟩
   | _ => simp [f0Inner] at h
 
-mutual
-theorem cg_stmt_facts : ∀ (s : Stmt), cgStmt s = true → StmtFacts s
+theorem simple_facts : ∀ (s : Stmt), cgSimple s = true → StmtFacts s ∧ simpleStmt s = true
   | .op n ps, h => by
-    obtain ⟨a, b⟩ := nameOK_split n (by simpa [cgStmt] using h)
-    exact ⟨by simp [okStmt, b], by simp [wStmt, a], rfl, by simp [toSrcStmt, Src.labelsOf], by simp [vbadStmt]⟩
+    obtain ⟨a, b⟩ := nameOK_split n (by simpa [cgSimple] using h)
+    exact ⟨⟨by simp [okStmt, b], by simp [wStmt, a], rfl, by simp [toSrcStmt, Src.labelsOf]⟩, rfl⟩
   | .inl c cp n ps, h => by
-    simp only [cgStmt, Bool.and_eq_true] at h
+    simp only [cgSimple, Bool.and_eq_true] at h
     obtain ⟨a, b⟩ := nameOK_split n h.1.2
-    exact ⟨by simp [okStmt, b, ctx_notJump c h.1.1], by simp [wStmt, a, h.2], rfl, by simp [toSrcStmt, Src.labelsOf], by simp [vbadStmt]⟩
+    exact ⟨⟨by simp [okStmt, b, ctx_notJump c h.1.1], by simp [wStmt, a, h.2], rfl, by simp [toSrcStmt, Src.labelsOf]⟩, rfl⟩
   | .with_ c cp inner, h => by
-    simp only [cgStmt, Bool.and_eq_true] at h
-    exact f0_inner_facts c cp inner h.1 h.2
-  | .ret, _ => ⟨by simp [okStmt], by simp [wStmt], rfl, by simp [toSrcStmt, Src.labelsOf], by simp [vbadStmt]⟩
-  | .end_, _ => ⟨by simp [okStmt], by simp [wStmt], rfl, by simp [toSrcStmt, Src.labelsOf], by simp [vbadStmt]⟩
-  | .hold, _ => ⟨by simp [okStmt], by simp [wStmt], rfl, by simp [toSrcStmt, Src.labelsOf], by simp [vbadStmt]⟩
+    simp only [cgSimple, Bool.and_eq_true] at h
+    exact ⟨f0_inner_facts c cp inner h.1 h.2, rfl⟩
+  | .ret, _ => ⟨⟨by simp [okStmt], by simp [wStmt], rfl, by simp [toSrcStmt, Src.labelsOf]⟩, rfl⟩
+  | .end_, _ => ⟨⟨by simp [okStmt], by simp [wStmt], rfl, by simp [toSrcStmt, Src.labelsOf]⟩, rfl⟩
+  | .hold, _ => ⟨⟨by simp [okStmt], by simp [wStmt], rfl, by simp [toSrcStmt, Src.labelsOf]⟩, rfl⟩
+  | .ite .., h => by simp [cgSimple] at h
+  | .label _, h => by simp [cgSimple] at h
+  | .jump _, h => by simp [cgSimple] at h
+  | .call _, h => by simp [cgSimple] at h
+  | .brk, h => by simp [cgSimple] at h
+  | .cont, h => by simp [cgSimple] at h
+  | .brkLoop, h => by simp [cgSimple] at h
+  | .switch .., h => by simp [cgSimple] at h
+  | .forever .., h => by simp [cgSimple] at h
+  | .while_ .., h => by simp [cgSimple] at h
+  | .for_ .., h => by simp [cgSimple] at h
+  | .macroCall .., h => by simp [cgSimple] at h
+
+mutual
+theorem cg_stmt_facts (lv : Nat) : ∀ (s : Stmt), cgStmt lv s = true → StmtFacts s
+  | .op n ps, h => (simple_facts _ (by simpa [cgStmt] using h)).1
+  | .inl c cp n ps, h => (simple_facts _ (by simpa [cgStmt] using h)).1
+  | .with_ c cp inner, h => (simple_facts _ (by simpa [cgStmt] using h)).1
+  | .ret, _ => (simple_facts _ rfl).1
+  | .end_, _ => (simple_facts _ rfl).1
+  | .hold, _ => (simple_facts _ rfl).1
   | .ite neg hdrs body elifs hasElse els, h => by
     simp only [cgStmt, Bool.and_eq_true] at h
-    have f1 := cg_stmts_facts body h.1.1.2
-    have f2 := cg_elifs_facts elifs h.1.2
-    have f3 := cg_stmts_facts els h.2
-    refine ⟨by simp [okStmt, f1.ok, f2.ok, f3.ok], by simp [wStmt, h.1.1.1, f1.w, f2.w, f3.w], ?_, ?_, by simp [vbadStmt, f1.vbad, f2.vbad, f3.vbad]⟩
+    have f1 := cg_stmts_facts lv body h.1.1.2
+    have f2 := cg_elifs_facts lv elifs h.1.2
+    have f3 := cg_stmts_facts lv els h.2
+    refine ⟨by simp [okStmt, f1.ok, f2.ok, f3.ok], by simp [wStmt, h.1.1.1, f1.w, f2.w, f3.w], ?_, ?_⟩
     · simp only [dfStmt, f1.df, f2.dfA, f2.dfB, f3.df]; cases hasElse <;> rfl
     · simp [toSrcStmt, Src.labelsOf, Src.labelsOfBranches, f1.labs, f2.labs, f3.labs]
+  | .cont, _ => ⟨rfl, rfl, rfl, by simp [toSrcStmt, Src.labelsOf]⟩
+  | .brkLoop, _ => ⟨rfl, rfl, rfl, by simp [toSrcStmt, Src.labelsOf]⟩
+  | .forever body, h => by
+    simp only [cgStmt, Bool.and_eq_true] at h
+    have f1 := cg_stmts_facts lv body h.2
+    exact ⟨by simp [okStmt, f1.ok], by simp [wStmt, f1.w], by simp [dfStmt, f1.df], by simp [toSrcStmt, Src.labelsOf, f1.labs]⟩
+  | .while_ neg hd body, h => by
+    simp only [cgStmt, Bool.and_eq_true] at h
+    have f1 := cg_stmts_facts lv body h.2
+    exact ⟨by simp [okStmt, f1.ok], by simp [wStmt, f1.w, h.1.2], by simp [dfStmt, f1.df], by simp [toSrcStmt, Src.labelsOf, f1.labs]⟩
+  | .for_ init hd inc body, h => by
+    simp only [cgStmt, Bool.and_eq_true] at h
+    have f1 := cg_stmts_facts lv body h.2
+    obtain ⟨fi, si⟩ := simple_facts init h.1.1.2
+    obtain ⟨fe, se⟩ := simple_facts inc h.1.2
+    exact ⟨by simp [okStmt, f1.ok, fi.ok, fe.ok], by simp [wStmt, f1.w, h.1.1.1.2, si, se, fi.w, fe.w], by simp [dfStmt, f1.df, fi.df, fe.df],
+      by simp [toSrcStmt, Src.labelsOf, f1.labs, fi.labs, fe.labs]⟩
   | .label _, h => by simp [cgStmt] at h
   | .jump _, h => by simp [cgStmt] at h
   | .call _, h => by simp [cgStmt] at h
   | .brk, h => by simp [cgStmt] at h
-  | .cont, h => by simp [cgStmt] at h
-  | .brkLoop, h => by simp [cgStmt] at h
   | .switch .., h => by simp [cgStmt] at h
-  | .forever .., h => by simp [cgStmt] at h
-  | .while_ .., h => by simp [cgStmt] at h
-  | .for_ .., h => by simp [cgStmt] at h
   | .macroCall .., h => by simp [cgStmt] at h
-theorem cg_stmts_facts : ∀ (ss : Stmts), cgStmts ss = true → StmtsFacts ss
-  | .nil, _ => ⟨rfl, rfl, rfl, by simp [toSrcStmts, Src.labelsOfStmts], rfl⟩
+theorem cg_stmts_facts (lv : Nat) : ∀ (ss : Stmts), cgStmts lv ss = true → StmtsFacts ss
+  | .nil, _ => ⟨rfl, rfl, rfl, by simp [toSrcStmts, Src.labelsOfStmts]⟩
   | .cons s r, h => by
     simp only [cgStmts, Bool.and_eq_true] at h
-    have f1 := cg_stmt_facts s h.1
-    have f2 := cg_stmts_facts r h.2
+    have f1 := cg_stmt_facts lv s h.1
+    have f2 := cg_stmts_facts lv r h.2
     exact ⟨by simp [okStmts, f1.ok, f2.ok], by simp [wStmts, f1.w, f2.w], by simp [dfStmts, f1.df, f2.df],
-      by simp [toSrcStmts, Src.labelsOfStmts, f1.labs, f2.labs], by simp [vbadStmts, f1.vbad, f2.vbad]⟩
-theorem cg_elifs_facts : ∀ (es : Elifs), cgElifs es = true → ElifsFacts es
-  | .nil, _ => ⟨rfl, rfl, rfl, rfl, by simp [toSrcElifs, Src.labelsOfBranches], rfl⟩
+      by simp [toSrcStmts, Src.labelsOfStmts, f1.labs, f2.labs]⟩
+theorem cg_elifs_facts (lv : Nat) : ∀ (es : Elifs), cgElifs lv es = true → ElifsFacts es
+  | .nil, _ => ⟨rfl, rfl, rfl, rfl, by simp [toSrcElifs, Src.labelsOfBranches]⟩
   | .cons neg hdrs body r, h => by
     simp only [cgElifs, Bool.and_eq_true] at h
-    have f1 := cg_stmts_facts body h.1.2
-    have f2 := cg_elifs_facts r h.2
+    have f1 := cg_stmts_facts lv body h.1.2
+    have f2 := cg_elifs_facts lv r h.2
     refine ⟨by simp [okElifs, f1.ok, f2.ok], by simp [wElifs, h.1.1, f1.w, f2.w], ?_, ?_,
-      by simp [toSrcElifs, Src.labelsOfBranches, f1.labs, f2.labs], by simp [vbadElifs, f1.vbad, f2.vbad]⟩
+      by simp [toSrcElifs, Src.labelsOfBranches, f1.labs, f2.labs]⟩
     · simp only [dfElifsA, f1.df, f2.dfA]; cases neg <;> rfl
     · simp only [dfElifsB, f1.df, f2.dfB]; cases neg <;> rfl
 end
 
 /-- programs of the fragment: no macros, routines numbered 0, 1, 2, … in source order, bodies in the fragment -/
-def CgProg (p : Program) : Prop :=
-  p.macros = [] ∧ seqFrom p.routines 0 = true ∧ ∀ r ∈ p.routines, cgStmts r.body = true
+def CgProg (lv : Nat) (p : Program) : Prop :=
+  p.macros = [] ∧ seqFrom p.routines 0 = true ∧ ∀ r ∈ p.routines, cgStmts lv r.body = true
 
-instance (p : Program) : Decidable (CgProg p) := by unfold CgProg; infer_instance
+instance (lv : Nat) (p : Program) : Decidable (CgProg lv p) := by unfold CgProg; infer_instance
 
-theorem frontGuard_of_cg (p : Program) (h : CgProg p) : FrontGuard p := by
+theorem frontGuard_of_cg (lv : Nat) (p : Program) (h : CgProg lv p) : FrontGuard p := by
   obtain ⟨hm, _, hall⟩ := h
-  refine ⟨⟨by rw [hm]; simp, fun r hr => (cg_stmts_facts r.body (hall r hr)).ok⟩, by rw [hm]; simp,
-    fun r hr => (cg_stmts_facts r.body (hall r hr)).w, ?_⟩
+  refine ⟨⟨by rw [hm]; simp, fun r hr => (cg_stmts_facts lv r.body (hall r hr)).ok⟩, by rw [hm]; simp,
+    fun r hr => (cg_stmts_facts lv r.body (hall r hr)).w, ?_⟩
   have : (p.routines.flatMap fun r => dfStmts r.body) = [] := by
     simp only [List.flatMap_eq_nil_iff]
     intro r hr
-    exact (cg_stmts_facts r.body (hall r hr)).df
+    exact (cg_stmts_facts lv r.body (hall r hr)).df
   rw [this]; exact List.nodup_nil
 
 /-! ### the graph of the program -/
@@ -159,17 +185,20 @@ theorem graph_fold (fuel : Nat) (ms : List Src.Macro) (env : Src.Env) (fell : Na
 
 /-! ### the tables of the front end -/
 
-theorem compileBody_cg (cx : Cx) (fuel : Nat) (body : Stmts) (hg : cgStmts body = true) {s : St} {its : List LItem} {s' : St}
+theorem compileBody_cg (cx : Cx) (fuel : Nat) (lv : Nat) (body : Stmts) (hg : cgStmts lv body = true) {s : St} {its : List LItem} {s' : St}
     (hl : s.loops = []) (hc : s.cases = []) (h : compileBody [] true body s = .ok (its, s')) :
     s'.loops = [] ∧ s'.cases = [] ∧ ∃ lb s1 ops s2, s1.loops = [] ∧ s1.cases = [] ∧ cStmts [] lb body s1 = .ok (ops, s2) ∧
       (its = ops ∨ ∃ o, its = ops ++ [.op ⟨o, Gen.op_dummy_end, []⟩]) := by
   unfold compileBody at h
-  rw [(cg_stmts_facts body hg).vbad] at h
+  cases hv : vbadStmts body with
+  | true => rw [hv] at h; simp [fail_ok] at h
+  | false =>
+  rw [hv] at h
   simp only [Bool.false_eq_true, if_false, bind_ok, visitTicks_ok] at h
   obtain ⟨lb, s1, h1, ops, s2, h2, h3⟩ := h
   simp only [Prod.mk.injEq] at h1
   obtain ⟨rfl, rfl⟩ := h1
-  have hp := cStmts_c cx fuel body s.lbc hg { } ⟨rfl, rfl⟩ _ _ _ h2
+  have hp := cStmts_c cx fuel lv body s.lbc hg { } ⟨rfl, rfl⟩ _ _ _ h2
   have l2 : s2.loops = [] := by rw [hp.loops]; exact hl
   have c2 : s2.cases = [] := by rw [hp.cases]; exact hc
   split at h3
@@ -183,8 +212,8 @@ theorem compileBody_cg (cx : Cx) (fuel : Nat) (body : Stmts) (hg : cgStmts body 
     obtain ⟨rfl, rfl⟩ := h3
     exact ⟨l2, c2, s.lbc, (s.tickedLbl (vlStmts body)).tickedOp (voStmts body), its, s', hl, hc, h2, .inl rfl⟩
 
-theorem compileRoutines_cg (cx : Cx) (fuel : Nat) : ∀ (rs : List Routine) (a : Nat) (t : Tables) (s : St) (t' : Tables) (s' : St),
-    seqFrom rs a = true → t.ops.length = a → t.infos.length = a → (∀ r ∈ rs, cgStmts r.body = true) → s.loops = [] → s.cases = [] →
+theorem compileRoutines_cg (cx : Cx) (fuel : Nat) (lv : Nat) : ∀ (rs : List Routine) (a : Nat) (t : Tables) (s : St) (t' : Tables) (s' : St),
+    seqFrom rs a = true → t.ops.length = a → t.infos.length = a → (∀ r ∈ rs, cgStmts lv r.body = true) → s.loops = [] → s.cases = [] →
     compileRoutines [] rs a t s = .ok (t', s') →
     (∀ i, i < a → t'.ops[i]? = t.ops[i]?) ∧
     ∀ j r, rs[j]? = some r → ∃ its lb s1 ops s2, t'.ops[a + j]? = some its ∧ s1.loops = [] ∧ s1.cases = [] ∧
@@ -205,7 +234,7 @@ theorem compileRoutines_cg (cx : Cx) (fuel : Nat) : ∀ (rs : List Routine) (a :
     · simp [fail_ok] at h
     · simp only [bind_ok] at h
       obtain ⟨its, s1, h1, h2⟩ := h
-      obtain ⟨l1, c1, lb, sa, ops, sb, la, ca, hcs, hits⟩ := compileBody_cg cx fuel r0.body (hall r0 (by simp)) hl hc h1
+      obtain ⟨l1, c1, lb, sa, ops, sb, la, ca, hcs, hits⟩ := compileBody_cg cx fuel lv r0.body (hall r0 (by simp)) hl hc h1
       have e1 : ((t.enlarge a).put a r0.info r0.coro its).ops = t.ops ++ [its] := by
         have : ((t.enlarge a).put a r0.info r0.coro its).ops = (t.enlarge a).ops.set a its := by cases r0.coro <;> rfl
         rw [this]
